@@ -10,6 +10,7 @@ import (
 	"strings"
 	"sync"
 	"sync/atomic"
+	"time"
 
 	"github.com/hedzr/logg/slog"
 
@@ -31,7 +32,7 @@ func init() { reg("C08", "side", c08side) }
 // Oracle: every payload is the complete record of exactly one call, the multiset delivered equals the multiset issued;
 // the race children run the same under the race detector.
 func c08side(c *Ctx) {
-	scenarios := []string{"failing", "frontend", "chdir"}
+	scenarios := []string{"failing", "frontend", "chdir", "closed-elsewhere"}
 	c.Each(func(idx int, r *gen.R) {
 		sc := scenarios[idx%len(scenarios)]
 		G := gen.Pick(r, []int{2, 4, 8, 32})
@@ -48,20 +49,29 @@ func c08side(c *Ctx) {
 		l0 := newRoot("side0", f, w0, slog.AlwaysLevel)
 		desc := map[string]any{"scenario": sc, "goroutines": G, "calls_per_goroutine": N, "gomaxprocs": procs, "format": f.String()}
 		c.R.Distinct("side_scenarios", sc)
-		var issued0, issued1 int64
+		var issued0, issued1, issuedStd int64
 		var wg sync.WaitGroup
 		start := make(chan struct{})
 		wantAttrs := map[string]string{}
 		wantWithID := map[string]string{} // attributes of the records that carry an id attribute
 		callerFn := "c08side"
+		behind := false // W1B stands behind the failing W1: it gets what W1 was handed
+		var stdout func() (out1, out2 []byte)
 		perGoroutine := false // records that carry "own" went through a logger derived by their goroutine: req == own
 
 		switch sc {
 		case "failing":
-			w1 := mon.New(log, "W1", mon.ShapePlain)
+			shape := mon.ShapePlain
+			if idx%8 >= 4 {
+				shape = mon.ShapeLvlPlain // destinations that want to be told the severity before each Write
+			}
+			w1 := mon.New(log, "W1", shape)
 			w1.Core().Fail = func(att int, p []byte) (bool, int) { return att%3 != 0, len(p) / 2 }
-			we := mon.New(log, "W1E", mon.ShapePlain) // the failing logger's diagnostics go here
+			we := mon.New(log, "W1E", shape) // the failing logger's diagnostics go here
+			w1b := mon.New(log, "W1B", mon.ShapePlain)
 			l1 := newRoot("side1", f, w1, slog.AlwaysLevel)
+			l1.AddWriter(w1b) // a healthy destination BEHIND the failing one: it gets every record of that logger
+			behind = true
 			l1.SetErrorWriter(we)
 			for g := 0; g < G; g++ {
 				g := g
@@ -154,15 +164,87 @@ func c08side(c *Ctx) {
 					}
 				}()
 			}
+		case "closed-elsewhere":
+			// loggers that were never given writers log to the process's stdout while request-scoped children of theirs
+			// are made, used and CLOSED (the usual `defer l.Close()`) by every goroutine: closing one logger is no
+			// business of the others, every record arrives on stdout
+			callerFn = ""
+			lstd := slog.New(fmt.Sprintf("std%d", idx)).Root()
+			setFormat(lstd, f)
+			lstd.SetLevel(slog.AlwaysLevel)
+			stdout = borrowFds()
+			for g := 0; g < G; g++ {
+				g := g
+				// (every goroutine derives its request loggers from a parent of ITS OWN: deriving from one parent in
+				// several goroutines at once is configuration, which the library does not synchronise)
+				mine := slog.New(fmt.Sprintf("own%d-%d", idx, g)).Root()
+				setFormat(mine, f)
+				wg.Add(1)
+				go func() {
+					defer wg.Done()
+					defer mine.Close()
+					<-start
+					for k := 0; k < N; k++ {
+						id := fmt.Sprintf("g%dk%d;", g, k)
+						if k%16 == 3 {
+							req := mine.New(fmt.Sprintf("req-%d-%d", g, k))
+							req.Info("r-" + id)
+							req.Close()
+						}
+						lstd.Info("m-"+id, "id", id)
+						atomic.AddInt64(&issuedStd, 1)
+					}
+				}()
+			}
 		}
 		close(start)
-		wg.Wait()
+		finished := make(chan struct{})
+		go func() { wg.Wait(); close(finished) }()
+		select {
+		case <-finished:
+		case <-time.After(2 * time.Minute):
+			// calls that do not return (a few thousand records take a second or two): nothing can be said about them
+			// without a clock - the run is inconclusive
+			c.R.Add("watchdog_timeouts", 1)
+			if stdout != nil {
+				stdout()
+			}
+			// the stuck goroutines are still alive: leave the process now (report closed properly) rather than go on
+			// with later cases next to them
+			c.R.Done()
+			os.Exit(0)
+		}
+		if stdout != nil {
+			out1, _ := stdout()
+			seen := map[string]int{}
+			for _, ln := range bytes.Split(out1, []byte{'\n'}) {
+				i := bytes.Index(ln, []byte("m-g"))
+				if i < 0 {
+					continue
+				}
+				if j := bytes.IndexByte(ln[i:], ';'); j > 0 {
+					seen[string(ln[i+2:i+j+1])]++
+				}
+			}
+			c.R.Add("records_read_back_from_the_process_stdout", int64(len(seen)))
+			if int64(len(seen)) != issuedStd {
+				c.R.Violation(idx, "loss-or-duplication", "C08/side/"+sc+"/stdout", fmt.Sprintf("%d calls issued on a logger that writes to the process's stdout (other goroutines made, used and closed request-scoped children of it meanwhile), %d distinct records arrived there", issuedStd, len(seen)), desc)
+				return
+			}
+			for id, n := range seen {
+				if n != 1 {
+					c.R.Violation(idx, "loss-or-duplication", "C08/side/"+sc+"/stdout", fmt.Sprintf("record %s arrived %d times on stdout", id, n), desc)
+					return
+				}
+			}
+		}
 		evs := log.Events()
 		c.R.Add("side_calls", issued0+issued1)
 		c.R.Add("write_events", int64(len(evs)))
 		c.R.Max("max_writes_in_flight", int64(log.MaxIn))
 		got0 := map[string]int{}
 		got1 := map[string]int{}
+		got1b := map[string]int{}
 		diags := 0
 		for _, e := range evs {
 			if e.Kind != mon.EvWrite {
@@ -170,6 +252,16 @@ func c08side(c *Ctx) {
 			}
 			if bytes.Contains(e.Data, []byte(diagText)) {
 				diags++
+				continue
+			}
+			if e.W == "W1B" {
+				i := bytes.Index(e.Data, []byte("f-g"))
+				if i < 0 || e.Data[len(e.Data)-1] != '\n' {
+					c.R.Violation(idx, "torn-or-corrupt", "C08/side/"+sc+"/destination-behind-the-failing-one", fmt.Sprintf("payload at the healthy destination behind the failing one is not one whole record: %s", q(clip(string(e.Data), 600))), desc)
+					return
+				}
+				j := bytes.IndexByte(e.Data[i:], ';')
+				got1b[string(e.Data[i+2:i+j+1])]++
 				continue
 			}
 			if e.W == "W1" {
@@ -243,6 +335,18 @@ func c08side(c *Ctx) {
 			if n != 1 {
 				c.R.Violation(idx, "loss-or-duplication", "C08/side/"+sc+"/multiset", fmt.Sprintf("record %s delivered %d times", id, n), desc)
 				return
+			}
+		}
+		if behind {
+			if int64(len(got1b)) != issued1 {
+				c.R.Violation(idx, "loss-or-duplication", "C08/side/"+sc+"/destination-behind-the-failing-one", fmt.Sprintf("%d calls issued on the logger whose first destination fails, %d distinct records reached the healthy destination behind it", issued1, len(got1b)), desc)
+				return
+			}
+			for id, n := range got1b {
+				if n != 1 {
+					c.R.Violation(idx, "loss-or-duplication", "C08/side/"+sc+"/destination-behind-the-failing-one", fmt.Sprintf("record %s reached the healthy destination behind the failing one %d times", id, n), desc)
+					return
+				}
 			}
 		}
 		for id, n := range got1 {
